@@ -4745,10 +4745,9 @@ class AcceptLanguageValidHeader(AcceptLanguage):
                 if lowered_default_tag not in not_acceptable_ranges:
                     return default_tag
 
-        try:
+        if callable(default):
             return default()
-        except TypeError:  # default is not a callable
-            return default
+        return default
 
     def quality(self, offer):
         """
@@ -5057,10 +5056,9 @@ class _AcceptLanguageInvalidOrNoHeader(AcceptLanguage):
         if default_tag is not None:
             return default_tag
 
-        try:
+        if callable(default):
             return default()
-        except TypeError:  # default is not a callable
-            return default
+        return default
 
     def quality(self, offer):
         """
